@@ -207,6 +207,8 @@ def validate(trace, wd):
 
 
 def name_of(rec):
+    if rec.get("ev") == "Resub":
+        return "resub/gen%s/root2-%s/case-%d" % (rec.get("gen", "?"), rec.get("root2", "?"), rec.get("i", -1))
     if rec.get("ev") != "Case":
         return "%s/gen%s" % (rec.get("ev", "?").lower(), rec.get("gen", "?"))
     c = rec["c"]
@@ -257,6 +259,7 @@ def run(prop, tier):
         violations, known, per_formula, harness_viol = [], [], {}, []
         ncases = n200 = 0
         by_class = {}
+        resub = {}
         samples = []
         for rd in rounds:
             recs = [json.loads(ln) for ln in rd["lines"]]
@@ -266,6 +269,9 @@ def run(prop, tier):
                     n200 += r["a"]["status"] == 200
                     k = "%s/%s" % (r["a"]["status"], r["a"]["logged"])
                     by_class[k] = by_class.get(k, 0) + 1
+                elif r.get("ev") == "Resub":
+                    k = "root2-%s/%s" % ("unknown" if r["root2"] == "N" else "accepted", r["a"]["status"])
+                    resub[k] = resub.get(k, 0) + 1
             if rd["round"] == 0:
                 want = {"certificate", "tbs-defanged", "tbs-defanged-rewritten", "none"}
                 for r in recs:
@@ -312,6 +318,7 @@ def run(prop, tier):
                "samples": samples or [{"none": True}], "model": mc, "table_cases": len(table),
                "trace_validation": {"rounds": [{k: v for k, v in rd.items() if k not in ("lines", "viol")} for rd in rounds],
                                     "cases": ncases, "answers_200": n200, "answers_by_status_and_logged_class": by_class,
+                                    "resubmissions_through_cross_signed_chain": resub,
                                     "roots_persisted_across_restart": persisted},
                "violated_formulas": per_formula,
                "exhaustive": tier == "thorough" and not replaying}
@@ -323,9 +330,9 @@ def run(prop, tier):
                 len(harness_viol), harness_viol[0][0], harness_viol[0][1])
         elif n200 == 0 and not replaying:
             inconclusive = "no submission was accepted: the harness's good chains are not good for this tree"
-        log("C09 %s: table %d cases (model %d states%s), %d round(s), %d cases executed (%d accepted), roots persisted across restart: %s; "
+        log("C09 %s: table %d cases (model %d states%s), %d round(s), %d cases executed (%d accepted), resubmissions through another chain %s, roots persisted across restart: %s; "
             "build+model %.0f s, harness %s s, validation %s s, total %.0f s" % (
-                tier, len(table), mc["states"], ", cached" if mc.get("cached") else "", len(rounds), ncases, n200,
+                tier, len(table), mc["states"], ", cached" if mc.get("cached") else "", len(rounds), ncases, n200, resub or "none",
                 ",".join(persisted) or "-", t_build, "/".join(str(rd["harness_s"]) for rd in rounds),
                 "/".join(str(rd["tlc_s"]) for rd in rounds), time.time() - t0))
         vlib.finish(prop, violations, known, inconclusive)
